@@ -5,7 +5,7 @@
    is the state after the schedule [sched] (any list of (thread, choice)); [mk_cfg] rounds the
    requested capacity as muggle_channel_init does; hypothesis [wk = WSingle -> nw <= 1] is the
    documented usage of MUGGLE_CHANNEL_FLAG_WRITE_SINGLE. *)
-From MV Require Import C01.Model C01.ModelQ C01.ProofsArith C01.ProofsSC C01.ProofsView C01.ProofsViewM C01.ProofsOrder C01.ProofsQ C01.ProofsQV C01.ProofsDV C01.Dispatch C01.ProofsDispatch C01.ProofsFlags gen.Params_C01.
+From MV Require Import C01.Model C01.ModelQ C01.ProofsArith C01.ProofsSC C01.ProofsView C01.ProofsViewM C01.ProofsOrder C01.ProofsQ C01.ProofsQV C01.ProofsDV C01.Dispatch C01.ProofsDispatch C01.ProofsFlags C01.ProofsVal C01.ModelRC C01.ProofsRC C01.Slice C01.ProofsSlice gen.Params_C01 C01.ProofsGen.
 Local Open Scope Z_scope.
 
 (* side condition on the code's memory orders: release on every store of write_cursor, acquire
@@ -33,6 +33,33 @@ Print Assumptions code_chan_mo_ok.
 Theorem code_lock_mo_ok : forall wk, lock_mo_ok code_params wk = true.
 Proof. intros wk. destruct wk; vm_compute; reflexivity. Qed.
 Print Assumptions code_lock_mo_ok.
+
+Theorem code_chan_rd_mo_ok : forall rm, chan_rd_mo_ok code_params rm = true.
+Proof. intros rm. destruct rm; vm_compute; reflexivity. Qed.
+Print Assumptions code_chan_rd_mo_ok.
+
+(* READ BEFORE OVERWRITE (the consumer side of the hand-over; C01/ModelRC.v): the channel model
+   observed by a ghost that gives every slot read of the reader an epoch, lets a store with memory
+   order >= release publish the storer's knowledge of completed reads on the atomic cell (mutex
+   unlock: on the mutex), and counts in r_unc the slot stores of a writer that are not ordered
+   after every earlier read of the same slot.  With the memory orders of the code (release store
+   of read_cursor by the reader, acquire / release on the writer locks; the writer's load of
+   read_cursor is taken as the acquiring side whatever its order) no such store exists, for every
+   schedule, any number of writers, any capacity, all 12 modes; the observer does not change the
+   channel (second conjunct).  chan_read_release_necessary (ProofsRC.v): with a relaxed store of
+   read_cursor a schedule with an uncovered overwrite exists *)
+Theorem chan_no_overwrite_before_read_completes : forall wk rm reqcap nw maxtry nread ks sched,
+  (wk = WSingle -> (nw <= 1)%nat) ->
+  let g := mk_cfg wk rm reqcap nw maxtry in
+  r_unc (x_r (xreach code_params g nread ks sched)) = 0%nat /\
+  x_s (xreach code_params g nread ks sched) = reach code_params g nread ks sched.
+Proof.
+  intros wk rm reqcap nw maxtry nread ks sched H g. split.
+  - exact (chan_read_covered_all code_params g nread ks sched (mk_cfg_ok wk rm reqcap nw maxtry H)
+             (code_chan_rd_mo_ok _) (code_lock_mo_ok _)).
+  - exact (xreach_proj code_params g nread ks sched).
+Qed.
+Print Assumptions chan_no_overwrite_before_read_completes.
 
 (* ... together with the visibility invariants (views, stamps): through write_cursor in the sync and
    busy reader modes, through read_mutex in the mutex reader mode *)
@@ -257,6 +284,64 @@ Theorem chan_capacity_matches_model :
 Proof. vm_compute. repeat split; reflexivity. Qed.
 Print Assumptions chan_capacity_matches_model.
 
+(* MESSAGE VALUES.  A message is an opaque void* for the channel: in the model a scenario assigns to
+   message (writer, seq) the pointer value val (writer, seq) -- ANY function: the address of its
+   own payload, NULL, (void* )-1, small integers, one address carried by several messages -- and
+   the model moves the identities without ever inspecting the values.  The delivery theorems for
+   every value assignment: the values returned by the reads are, in order, the values carried by
+   the accepted messages (a NULL message is delivered like any other, the NULL of a never-written
+   slot is never returned as data), FULL only if full, no overwrite, no uncovered read *)
+Theorem chan_delivery_any_values : forall wk rm reqcap nw maxtry val nread ks sched,
+  (wk = WSingle -> (nw <= 1)%nat) ->
+  let g := mk_cfg_val wk rm reqcap nw maxtry val in
+  let s := reach code_params g nread ks sched in
+  (map (valopt g) (c_del s) = map val (firstn (length (c_del s)) (c_acc s)) /\
+   (length (c_del s) <= length (c_acc s))%nat) /\
+  (length (c_del s) = length (c_acc s) -> c_del s = map Some (c_acc s)) /\
+  c_badfull s = 0%nat /\ c_overw s = 0%nat /\ c_uncov s = 0%nat.
+Proof.
+  intros wk rm reqcap nw maxtry val nread ks sched H g s.
+  pose proof (mk_cfg_val_ok wk rm reqcap nw maxtry val H) as Hg.
+  exact (conj (chan_delivered_values_all code_params g nread ks sched Hg (code_chan_mo_ok _) (code_lock_mo_ok _))
+        (conj (proj2 (proj2 (chan_exactly_once_all code_params g nread ks sched Hg (code_chan_mo_ok _) (code_lock_mo_ok _))))
+        (conj (chan_full_only_if_full_all code_params g nread ks sched Hg)
+        (conj (chan_no_overwrite_all code_params g nread ks sched Hg)
+              (chan_reads_covered_all code_params g nread ks sched Hg (code_chan_mo_ok _) (code_lock_mo_ok _)))))).
+Qed.
+Print Assumptions chan_delivery_any_values.
+
+(* parametricity: the same schedule under ANY other value assignment reaches the SAME state
+   (program points, cursors, slots, accepted / delivered identities, ghost counters) ... *)
+Theorem chan_state_value_independent : forall g val nread ks sched,
+  reach code_params (with_val g val) nread ks sched = reach code_params g nread ks sched.
+Proof. exact (chan_state_value_independent_all code_params). Qed.
+Print Assumptions chan_state_value_independent.
+
+(* ... and performs the same operations in the same order (labels up to the values shown in the
+   reader's "got" / "fld" harness notes) *)
+Theorem chan_trace_value_independent : forall g val nread ks sched,
+  map (fun tl => (fst tl, shape (snd tl))) (trace csys (cstep code_params (with_val g val)) (cinit (with_val g val) nread ks) sched) =
+  map (fun tl => (fst tl, shape (snd tl))) (trace csys (cstep code_params g) (cinit g nread ks) sched).
+Proof. exact (chan_trace_value_independent_all code_params). Qed.
+Print Assumptions chan_trace_value_independent.
+
+(* additional obligation, from an AST SCAN of the code re-done on every run (lib/props/c01_scan.py;
+   not a proof about C): channel.c, array_blocking_queue.c and double_buffer.c nowhere compare a
+   payload value, test it for truth, convert it to an integer, dereference it, use it in
+   arithmetic or hand it to a function outside these files -- which is what would make NULL or
+   other special values meaningful and the value-independence above false for the code *)
+Theorem chan_code_never_tests_payload : code_payload_tests = 0%nat.
+Proof. vm_compute. reflexivity. Qed.
+Print Assumptions chan_code_never_tests_payload.
+
+(* the struct fields the model treats as 32-bit unsigned cursors (capacity, write_cursor,
+   read_cursor, cached_r_cur, the synclock word), the int counters of the array blocking queue and
+   the double buffer, and the pointer-sized slot elements have exactly the width and signedness
+   the model assumes (re-extracted with sizeof / typeof by the probe compiled from the working tree) *)
+Theorem chan_field_widths_match_model : code_field_widths = model_field_widths.
+Proof. vm_compute. reflexivity. Qed.
+Print Assumptions chan_field_widths_match_model.
+
 (* ... and for ALL requests: round_cap is the least power of two >= the request, and in the range
    the channel accepts (1 .. 2^31) the model's init_cap is that rounding *)
 Theorem chan_capacity_rounding : forall req, 1 <= req ->
@@ -266,3 +351,90 @@ Proof.
   intros req H. split; [exact (round_cap_spec req H)|]. intros H2. apply init_cap_round. split; assumption.
 Qed.
 Print Assumptions chan_capacity_rounding.
+
+(* SECOND TIE (translator kind, DESIGN.md 4.4) for channel.c.  lib/props/c01_slice.py slices the
+   bodies of the write / wake / read function variants and of the public wrappers out of the clang
+   AST of the C text of THIS run -- every synchronisation operation becomes a labelled step (an
+   entry of the event word: operation, object, memory order, in program order on each path), the
+   index arithmetic and the conditions between them become integer arithmetic with explicit
+   32-bit wrap, a message is an opaque 64-bit value, a loop is one iteration -- and
+   lib/leaftrans.py translates them (gen_chan_* in gen/Params_C01.v).  Each theorem has two
+   halves: the generated function equals the reference function of C01/Slice.v on the WHOLE domain
+   (capacity any power of two up to 2^31, cursors inside the ring, any slot contents, any message
+   value; decided by a tactic that does not look at the shape of the generated term), and the
+   model's steps through the same function (Model.v) compute the same reference: result, cursor
+   update, slot index, and the sequence of synchronisation operations with their memory orders.
+   An edit of a value, condition, memory order or synchronisation step on ANY path -- also one no
+   scenario reaches -- breaks the first half *)
+Theorem chan_write_sync_text_matches_model :
+  (forall cap ev rcur slot wcur data, cdom cap wcur rcur -> evdom ev ->
+     gen_chan_write_sync cap ev rcur slot wcur data = ref_write_sync code_params cap ev rcur slot wcur data) /\
+  write_sync_model_stmt code_params.
+Proof. exact (conj gen_write_sync_ref (model_write_sync code_params)). Qed.
+Print Assumptions chan_write_sync_text_matches_model.
+
+Theorem chan_write_busy_text_matches_model :
+  (forall cached cap ev rcur slot wcur data, cdom cap wcur rcur -> evdom ev -> 0 <= cached < cap ->
+     gen_chan_write_busy cached cap ev rcur slot wcur data = ref_write_busy code_params cached cap ev rcur slot wcur data) /\
+  write_busy_model_stmt code_params.
+Proof. exact (conj gen_write_busy_ref (model_write_busy code_params)). Qed.
+Print Assumptions chan_write_busy_text_matches_model.
+
+Theorem chan_write_mutex_text_matches_model :
+  (forall cap ev rcur slot wcur data, cdom cap wcur rcur -> evdom ev ->
+     gen_chan_write_mutex cap ev rcur slot wcur data = ref_write_mutex cap ev rcur slot wcur data) /\
+  write_mutex_model_stmt code_params.
+Proof. exact (conj gen_write_mutex_ref (model_write_mutex code_params)). Qed.
+Print Assumptions chan_write_mutex_text_matches_model.
+
+Theorem chan_read_sync_text_matches_model :
+  (forall again cap ev rcur slot waited waitv wcur, cdom cap wcur rcur -> evdom ev ->
+     gen_chan_read_sync again cap ev rcur slot waited waitv wcur =
+     ref_read_sync code_params again cap ev rcur slot waited waitv wcur) /\
+  read_sync_model_stmt code_params.
+Proof. exact (conj gen_read_sync_ref (model_read_sync code_params)). Qed.
+Print Assumptions chan_read_sync_text_matches_model.
+
+Theorem chan_read_busy_text_matches_model :
+  (forall again cap ev rcur slot wcur, cdom cap wcur rcur -> evdom ev ->
+     gen_chan_read_busy again cap ev rcur slot wcur = ref_read_busy code_params again cap ev rcur slot wcur) /\
+  read_busy_model_stmt code_params.
+Proof. exact (conj gen_read_busy_ref (model_read_busy code_params)). Qed.
+Print Assumptions chan_read_busy_text_matches_model.
+
+Theorem chan_read_mutex_text_matches_model :
+  (forall again cap ev rcur slot waited wcur, cdom cap wcur rcur -> evdom ev ->
+     gen_chan_read_mutex again cap ev rcur slot waited wcur = ref_read_mutex again cap ev rcur slot waited wcur) /\
+  read_mutex_model_stmt code_params.
+Proof. exact (conj gen_read_mutex_ref (model_read_mutex code_params)). Qed.
+Print Assumptions chan_read_mutex_text_matches_model.
+
+Theorem chan_wake_text_matches_model :
+  (forall ev, evdom ev ->
+     gen_chan_wake_sync ev = ref_wake_sync ev /\ gen_chan_wake_mutex ev = ref_wake_mutex ev /\ gen_chan_wake_busy = tt) /\
+  wakes_model_stmt code_params.
+Proof. exact (conj gen_wakes_ref (model_wakes code_params)). Qed.
+Print Assumptions chan_wake_text_matches_model.
+
+Theorem chan_wrappers_text_match_model :
+  (forall ev ret v data, evdom ev ->
+     gen_chan_write ev ret data = ref_chan_write ev ret /\ gen_chan_read ev v = ref_chan_read ev v) /\
+  wrapper_model_stmt.
+Proof. exact (conj gen_wrappers_ref model_wrapper). Qed.
+Print Assumptions chan_wrappers_text_match_model.
+
+(* the same tie for array_blocking_queue.c: put / take up to the end of the first loop iteration with
+   the file-local helpers inlined (lock, the full / empty test, the wait on the right condition
+   variable, the slot index, the ring successor of put_idx / take_idx, the count, the notification
+   of the other condition variable, unlock), against the model's plain step under the mutex
+   (ModelQ.v) and the labels of its operations *)
+Theorem abq_text_matches_model :
+  (forall again cap cnt datas ev put waited data, evdom ev -> 1 <= cap < 2147483648 -> 0 <= put < cap -> 0 <= cnt <= cap ->
+     gen_abq_put again cap cnt datas ev put waited data = ref_abq_put again cap cnt datas ev put waited data) /\
+  (forall again cap cnt datas ev take waited, evdom ev -> 1 <= cap < 2147483648 -> 0 <= take < cap -> 0 <= cnt <= cap ->
+     gen_abq_take again cap cnt datas ev take waited = ref_abq_take again cap cnt datas ev take waited) /\
+  abq_put_model_stmt /\ abq_take_model_stmt /\ abq_labels_model_stmt.
+Proof.
+  exact (conj gen_abq_put_ref (conj gen_abq_take_ref (conj model_abq_put (conj model_abq_take model_abq_labels)))).
+Qed.
+Print Assumptions abq_text_matches_model.
